@@ -69,6 +69,18 @@ func init() {
 			if !v.File.HasDep() && rapid.Bool().Draw(t, "c14dep") {
 				gen.SplitDep(t, v.File, v.Cfg.Types)
 			}
+			if rapid.Bool().Draw(t, "c14decoyovr") {
+				// import_path_overrides keys that are parents of packages in use (validators, plan modifiers, the
+				// framework itself) and disagree with each other: an exact-key lookup ignores them; whatever is made
+				// of them must not depend on map order
+				if v.Cfg.ImportPathOverrides == nil {
+					v.Cfg.ImportPathOverrides = map[string]string{}
+				}
+				v.Cfg.ImportPathOverrides["github.com/hashicorp"] = "example.com/decoy1"
+				v.Cfg.ImportPathOverrides["github.com/hashicorp/terraform-plugin-framework"] = "example.com/decoy2"
+				v.Cfg.ImportPathOverrides["github.com"] = "example.com/decoy3"
+				v.Cfg.ImportPathOverrides["verif"] = "example.com/decoy4"
+			}
 			rp := &Replay{Variants: []*pipeline.Variant{v}}
 			c := c14Case{Runs: 6}
 			for i := 0; i < 4; i++ {
@@ -136,9 +148,20 @@ func init() {
 				if err := os.WriteFile(filepath.Join(dir, "cfg.yaml"), []byte(canon), 0o644); err != nil {
 					return "", pipeline.Infra("write yaml: %v", err)
 				}
+				// ... with the non-empty messages of the imported file selected as well (they are generated into the
+				// second file)
+				both := ir.Clone(v.Cfg)
+				for _, m := range v.File.Messages {
+					if m.InDep && len(m.Fields) > 0 {
+						both.Types = append(both.Types, m.Name)
+					}
+				}
+				if err := os.WriteFile(filepath.Join(dir, "cfg.yaml"), []byte(both.YAML(nil, nil)), 0o644); err != nil {
+					return "", pipeline.Infra("write yaml: %v", err)
+				}
 				req := desc.MarshalRequest(desc.RequestAll(fd, "config=cfg.yaml"))
 				var first []byte
-				for i := 0; i < c.Runs+2; i++ {
+				for i := 0; i < c.Runs+6; i++ {
 					res, err := tools.RunPlugin(req, dir)
 					if err != nil {
 						return "", err
